@@ -10,6 +10,8 @@ class Facts:
         import inline
         known = inline.load_known()
         d, self.renamed = inline.restore_renames(d, known)
+        d, adt_renames = inline.restore_adt_names(d, inline.load_known_adts())
+        self.renamed = list(self.renamed) + adt_renames
         self.inlined = inline.inline_new_helpers(d, known)
         self.raw = d
         self.crate = d['crate']
